@@ -7,42 +7,55 @@ from the CURRENT Rust source.  Companion of tools/rust2lean.py (whose lexer / so
 Reads the items listed in MACHINES *by name* from the files under $VERIF_REPO (default /repo) and writes
 <verif>/lean/BarterModel/Generated/Machines.lean (namespace BarterModel.Generated.Machines, core Lean only;
 rewritten only when its content changes).  The agreement theorems of lean/BarterModel/Lemmas/KernelsAgree/
-{Sequencer,Drawdown}.lean state that the generated step functions equal the hand-written model definitions
-for ALL states and arguments, so a change of such a method in the Rust source breaks a proof obligation.
+{Sequencer,Drawdown,PositionSM,Connectivity}.lean state that the generated step functions equal the
+hand-written model definitions for ALL states and arguments, so a change of such a method in the Rust source
+breaks a proof obligation.
 
 Translation scheme
   fn f(&mut self, a: A) -> R   |->  def S.f (self : S) (a : A) : S x R      (state passing; R = () gives S)
   fn f(&self, a: A) -> R       |->  def S.f (self : S) (a : A) : R
-  fn f(a: A) -> R  (in impl S) |->  def S.f (a : A) : R
+  fn f(self, a: A) -> R        |->  def S.f (self : S) (a : A) : R          (`mut self`: self is a mutable local)
+  fn f(a: A) -> R  (in impl S) |->  def S.f (a : A) : R                     (also `impl Trait for S`, e.g. From / Default)
   u64 -> Nat (overflow NOT modelled; `-` `/` `%` on u64 are rejected), i64 -> Int (`/` is Int.tdiv), Decimal -> Rat,
   DateTime<Utc> / TimeDelta -> Int (milliseconds), bool -> Bool (conditions are decidable propositions),
-  Option<T> -> Option T, Result<T, E> -> Except E T, () -> Unit, &T -> T (shared references are values).
+  Option<T> -> Option T, Result<T, E> -> Except E T, () -> Unit, (A, B) -> A x B, Vec<T> -> List T, &T -> T (shared
+  references are values); type parameters of structs / impls stay parameters (with DecidableEq); generic free
+  fns `fn f<T>(..)` are instantiated at the type of each call's arguments (Decimal / i64 / u64).
 
 Accepted Rust subset (delta to tools/rust2lean.py, which covers straight-line Decimal expressions):
-  items   `struct S<T..> { f: Ty, .. }` with fields of any accepted type (generic parameters become type
-          arguments), tuple structs `struct S(Ty);` (field `f0`), `struct` restricted to its u64 fields
-          (option fields_of_type: the other fields are dropped and recorded; reading them is rejected),
-          `enum` with unit / tuple / struct variants, `enum` restricted to named variants (option variants),
-          `fn` with `&self`, `&mut self`, no receiver; parameters `x: Ty`, `x: &Ty`, `mut x: Ty`
-  stmts   `let x (: Ty)? = e;`  `let Some(x) = e else { ..; return ..; };`  `self.f = e;` `self.f.g = e;`
-          `self.f += e;` (also -= *= /=), assignment to a `let mut` local, `return e;`, `e?;`,
+  items   `struct S<T = D, ..> { f: Ty, .. }` with fields of any accepted type, tuple structs `struct S(Ty);` (field
+          `f0`), unit structs `struct S;`, `struct` restricted to its u64 fields (option fields_of_type: the other
+          fields are dropped and recorded; reading them is rejected), `enum` with unit / tuple / struct variants,
+          `enum` restricted to named variants (option variants), identifier newtypes declared `opaque` (-> Nat:
+          only stored, cloned, compared), `fn` in `mod x` / `impl<..> S<..>` / `impl<..> Trait<..> for S<..>` with
+          `&self`, `&mut self`, `self`, `mut self`, no receiver; parameters `x: Ty`, `x: &Ty`, `mut x: Ty`
+  stmts   `let x (: Ty)? = e;`  `let (a, b) = e;`  `let Some(x) = e else { ..; return ..; };`  `self.f = e;`
+          `self.f.g = e;` `self.f += e;` (also -= *= /=), assignment to a `let mut` local, `return e;`, `e?;`,
           `if c { .. }` / `if c { .. } else { .. }` / `if let Some(x) = e { .. } (else { .. })?` / `match` /
           `{ .. }` in statement position with field assignment, early return and `?` inside (the code after such
           a statement is inlined into every branch that falls through), calls of `&mut self` methods of
-          translated structs as a whole statement / initialiser / tail (`self.m(a);` `let x = self.m(a);`
-          `self.m(a)?;`), `self.f.take()` as a whole initialiser or `match` scrutinee
+          translated structs on an assignable place as a whole statement / initialiser / tail (`self.m(a);`
+          `let x = self.m(a);` `self.m(a)?;`), `place.take()` as a whole initialiser or `match` scrutinee,
+          `place.push(e);`, `let mut v = Vec::new() / Vec::with_capacity(n);` directly followed by `v.push(e);`,
+          `use Enum::*;`, tracing macros `error!/warn!/info!/debug!/trace!(..);` (skipped: they only log)
   exprs   everything of rust2lean.py plus: integer literals, u64/i64 arithmetic and comparisons, `true`/`false`,
-          `Ok(e)` `Err(e)` `Some(e)` `None`, `()`; `E::V { f: e, .. }` / `E::V(e)` / `S { f: e, .. }` / `S(e)`;
-          postfix `?` on Option and on Result (same error type; only as a whole initialiser / statement / tail);
-          `b.then_some(e)`, `.clone()`, `.is_some()`, `.is_none()`, `.abs()`, `.is_zero()`, `.checked_div(e)`,
-          `t.signed_duration_since(u)`, `d.num_milliseconds()`, `Decimal::from(<u64>)`, `<u64> as i64`, `&e`, `*e`,
-          `x.0`, calls of `&self` methods and associated fns of translated structs, calls of translated free fns
-          (generic fns `fn f<T>(..)` are instantiated at the call's argument type);
-          `match` on bool / Option (`Some(p)`, `None`) / translated enum (every variant once, no wildcard, no
-          guard), patterns: binder, `_`, `S { f, g: p, .. }`, `S(p)`.
-Everything else is REJECTED: exit status 1 and a message naming the function and the construct.  It never
-guesses.  An item of a group that is not `--require`d is then left out of the generated file (its agreement
-theorem stops building) and the exit status stays 0; without `--require` every group is required.
+          `Ok(e)` `Err(e)` `Some(e)` `None`, `()`, tuples; `E::V { f: e, .. }` / `E::V(e)` / `S { f: e, .. }` / `S(e)`
+          / `S`; postfix `?` on Option and on Result (same error type; only as a whole initialiser / statement /
+          tail); `b.then_some(e)`, `.clone()`, `.is_some()`, `.is_none()`, `.abs()`, `.is_zero()`,
+          `.checked_div(e)`, `t.signed_duration_since(u)`, `d.num_milliseconds()`, `Decimal::from(<u64>)`,
+          `<u64> as i64`, `&e`, `*e`, `x.0`, `==` / `!=` on type-parameter and opaque values, calls of `&self` /
+          by-value methods and associated fns of translated structs, calls of translated free fns;
+          `match` on bool / Option (`Some(p)`, `None`) / translated enum (every variant once) with patterns
+          binder, `_`, `S { f, g: p, .. }`, `S(p)`, `(p, q)`; and the ORDERED form of `match` -- tuple scrutinee,
+          or-patterns `p | q`, guards `if c`, binder-free patterns, last arm an unguarded `_` -- which becomes an
+          if-chain; `unreachable!(..)` / `panic!(..)` become the opaque `Rust.unreachable` (an agreement theorem
+          then only holds if the site is dead code).
+Everything else is REJECTED: exit status 1 and a message naming the function and the construct (loops,
+closures, iterators, `&mut` borrows and `&mut`-returning accessors, indexing, string / float literals, other
+macros, other methods, maps, trait objects, lifetimes, `..` struct update, `as` casts other than u64 -> i64,
+`-` `/` `%` on u64, refutable nested patterns, guards with binders, ...).  It never guesses.  An item of a
+group that is not `--require`d is then left out of the generated file (its agreement theorem stops
+building) and the exit status stays 0; without `--require` every group is required.
 
 Trusted meaning of the fixed vocabulary = the PRELUDE below and the table in the docstring above.
 """
@@ -65,6 +78,7 @@ DDMAX = "barter/src/statistic/metric/drawdown/max.rs"
 DDMEAN = "barter/src/statistic/metric/drawdown/mean.rs"
 PSN = "barter/src/engine/state/position.rs"
 TRADE = "barter-execution/src/trade.rs"
+CONN = "barter/src/engine/state/connectivity/mod.rs"
 
 # (group, file, container, kind, name, options)     container: None = file top level, "mod x" or "impl X"
 MACHINES = [
@@ -123,8 +137,12 @@ MACHINES = [
     ("position_sm", PSN, "impl Position", "fn", "update_from_trade", {}),
     ("position_sm", PSN, None, "struct", "PositionManager", {}),
     ("position_sm", PSN, "impl PositionManager", "fn", "update_from_trade", {}),
+    ("connectivity", CONN, None, "enum", "Health", {}),
+    ("connectivity", CONN, "impl Default for Health", "fn", "default", {}),
+    ("connectivity", CONN, None, "struct", "ConnectivityState", {}),
+    ("connectivity", CONN, "impl ConnectivityState", "fn", "all_healthy", {}),
 ]
-GROUPS = ["sequencer", "drawdown", "position_sm"]
+GROUPS = ["sequencer", "drawdown", "position_sm", "connectivity"]
 
 PRELUDE = """\
 /-! ## Fixed prelude: the meaning given to the Rust vocabulary of the accepted subset
@@ -162,6 +180,10 @@ def Decimal.MIN : Rat := -79228162514264337593543950335
 
 def lean_id(x):
     return f"«{x}»" if x in LEAN_RESERVED else x
+
+
+# Lean globals the emitter writes unqualified: a Rust local of that name must not capture them
+LEAN_CLASH = {"none", "some", "decide"}
 
 
 # ------------------------------------------------------------------------------------------ source access
@@ -1284,7 +1306,7 @@ class Compiler:
     def bind(self, name, ty, mut, env):
         """new binder: fresh Lean name when the Rust name is already in scope (so that code inlined after a nested
         block can never be captured)"""
-        lean = lean_id(name) if name not in env else self.fresh(name)
+        lean = lean_id(name) if name not in env and name not in LEAN_CLASH else self.fresh(name)
         env = dict(env)
         env[name] = Var(ty, mut, lean)
         return lean, env
@@ -2254,6 +2276,8 @@ def compile_fn(world, parsed, toks, cname, self_ty, lean_name, tmap=None, tvars=
     if mode != "none":
         env["self"] = Var(self_ty, mode in ("mut", "ownmut"), "self")
     for p, mut, t in ptys:
+        if p in LEAN_CLASH:
+            raise Reject(f"parameter named `{p}` (clashes with a Lean name the emitter uses)")
         env[p] = Var(t, mut, lean_id(p))
     text = c.cs(body[1], 0, body[2], env, c.k_ret, 1, ret)
     used = []
@@ -2445,7 +2469,7 @@ def main():
             "`./check` for the properties whose props/Cxx.py names it in PREBUILD; the committed copy is the output for\n"
             "the pinned tree.  State machines: a `&mut self` method is a pure function returning the new state and the\n"
             "result; the meaning of the scalar vocabulary is fixed in the prelude below.  The agreement with the\n"
-            "hand-written models is proved in Lemmas/KernelsAgree/{Sequencer,Drawdown}.lean.\n\n"
+            "hand-written models is proved in Lemmas/KernelsAgree/{Sequencer,Drawdown,PositionSM,Connectivity}.lean.\n\n"
             "Source items (file :: item, line, hash of the item's source text):\n"
             + "\n".join(header) + "\n-/\nnamespace BarterModel.Generated.Machines\n\n" + PRELUDE + "\n".join(sections)
             + "\n\nend BarterModel.Generated.Machines\n")
